@@ -15,6 +15,9 @@ fn arg(args: &[String], name: &str) -> Option<String> {
 macro_rules! dispatch {
   ($id:expr, $f:ident, $($arg:expr),*) => {
     match $id {
+      "C01" => $f::<props::c01::C01>($($arg),*),
+      "C03" => $f::<props::c03::C03>($($arg),*),
+      "C11" => $f::<props::c11::C11>($($arg),*),
       "C15" => $f::<props::c15::C15>($($arg),*),
       other => { eprintln!("unknown property {}", other); std::process::exit(3) }
     }
